@@ -106,6 +106,20 @@ func (s *Server) typecheck(ctx context.Context, uri lsp.DocumentURI, version uin
 	var res []lsp.Diagnostic
 
 	_, err := compiler.Compile(ctx, uri.Filename(), content, compiler.Params{CheckOnly: true, Verbose: true})
+	if se, ok := err.(tm.SyntaxError); ok {
+		// Syntax errors come without a source range, build one from the offsets.
+		start := strings.LastIndexByte(content[:se.Offset], '\n') + 1
+		err = &status.Error{
+			Origin: status.SourceRange{
+				Filename:  uri.Filename(),
+				Offset:    se.Offset,
+				EndOffset: se.Endoffset,
+				Line:      strings.Count(content[:se.Offset], "\n") + 1,
+				Column:    se.Offset - start + 1,
+			},
+			Msg: se.Error(),
+		}
+	}
 	for _, p := range status.FromError(err) {
 		rng, _, _ := strings.Cut(content[p.Origin.Offset:p.Origin.EndOffset], "\n")
 		res = append(res, lsp.Diagnostic{
